@@ -356,6 +356,32 @@ def no_module_is_dropped_silently(ctx):
             for l, op, r in compare_ops(t.ast):
                 if r == 'self.failed_modules' and op in ('in', 'notin'):
                     known |= {b for b, lab in cfg.succ[t.id] if lab == ('T' if op == 'in' else 'F')}
+    # a helper method that hands back None only after it reported (same rule, applied to the helper): the side on which its
+    # result is found to be None counts as reported
+    def helper_reports(h):
+        hcfg = CFG(h.node, m, h.module)
+        happs = {i for c in calls_in(h.node) if call_attr(c) == 'append' and src(c.func.value) == 'self.errors' for i in hcfg.node_of(c)}
+        hknown = set()
+        for t in hcfg.nodes:
+            if t.kind == 'test':
+                for l, op, r in compare_ops(t.ast):
+                    if r == 'self.failed_modules' and op in ('in', 'notin'):
+                        hknown |= {b for b, lab in hcfg.succ[t.id] if lab == ('T' if op == 'in' else 'F')}
+        hn = [x for x in body_walk(h.node) if isinstance(x, ast.Return) and (x.value is None or (isinstance(x.value, ast.Constant) and x.value.value is None))]
+        return bool(hn) and all(hcfg.all_paths_pass([hcfg.entry], hcfg.ids(x), happs | hknown) for x in hn) and \
+            not can_end_without_value(hcfg, h.node, explicit_none_ok=True)
+    for site, h in helper_methods_called(m, f):
+        st = next((a for a in ancestors(site) if isinstance(a, ast.stmt)), None)
+        if isinstance(st, ast.Assign) and st.value is site and isinstance(st.targets[0], ast.Name) and helper_reports(h):
+            ctx.analysed(h)
+            var = st.targets[0].id
+            for t in cfg.nodes:
+                if t.kind == 'test' and isinstance(t.ast, ast.expr):
+                    for lab in ('T', 'F'):
+                        if any(isinstance(a, ast.Compare) and src(a.left) == var and len(a.ops) == 1 and isinstance(a.comparators[0], ast.Constant)
+                               and a.comparators[0].value is None and ((isinstance(a.ops[0], ast.Is) and tv) or (isinstance(a.ops[0], ast.IsNot) and not tv))
+                               for a, tv in facts_on_side(t.ast, lab == 'T')):
+                            known |= {b for b, l2 in cfg.succ[t.id] if l2 == lab}
     creation_start = [i for c in calls_in(f.node) if call_attr(c) == 'get' and 'module_cfg' in src(c.func) for i in cfg.node_of(c)] or [cfg.entry]
     nones = [n for n in body_walk(f.node) if (isinstance(n, ast.Return) and isinstance(n.value, ast.Constant) and n.value.value is None) or
              (isinstance(n, ast.Assign) and isinstance(n.value, ast.Constant) and n.value.value is None and src(n.targets[0]) == 'modobj')]
